@@ -65,6 +65,8 @@ def audit_stop():
 # ---------------------------------------------------------------------------------------
 
 SIZES = [0, 1, 7, 100, 4096, 10000]
+# text files for the multipart family: tiny files and sizes around a change of the decimal width
+MP_SIZES = [0, 1, 2, 9, 10, 11, 99, 100, 101, 999, 1000, 1001]
 
 
 def pattern(n):
@@ -95,6 +97,11 @@ class World:
             os.makedirs(os.path.join(self.base, rel), exist_ok=True)
         for n in SIZES:
             p = os.path.join(self.base, 'root', 'f%d.bin' % n)
+            with open(p, 'wb') as fh:
+                fh.write(pattern(n))
+            self.content[p] = pattern(n)
+        for n in MP_SIZES:
+            p = os.path.join(self.base, 'root', 'm%d.txt' % n)
             with open(p, 'wb') as fh:
                 fh.write(pattern(n))
             self.content[p] = pattern(n)
@@ -170,16 +177,16 @@ def _join_body(body):
     return b''.join(out)
 
 
-def impl_direct(static, path, rng=None, proto=(1, 1)):
+def impl_direct(static, path, rng=None, proto=(1, 1), extra=(), method='GET'):
     """call the dispatcher's handler directly with a constructed request; returns an observation dict"""
     from circuits.web.errors import httperror
     from circuits.web.events import request as RequestEvent
     from circuits.web.exceptions import HTTPException
     from circuits.web.headers import Headers
     from circuits.web.wrappers import Request, Response
-    h = Headers([('Host', 'localhost')] + ([('Range', rng)] if rng is not None else []))
+    h = Headers([('Host', 'localhost')] + ([('Range', rng)] if rng is not None else []) + list(extra))
     try:
-        req = Request(None, 'GET', 'http', path, proto, '', headers=h, server=_Srv)
+        req = Request(None, method, 'http', path, proto, '', headers=h, server=_Srv)
     except UnicodeError:
         return {'kind': 'unconstructible', 'audit': []}   # no front end can hand this path on
     res = Response(req)
@@ -203,7 +210,13 @@ def impl_direct(static, path, rng=None, proto=(1, 1)):
             obs.update(kind='status', status=200, headers={}, body=r.encode('utf-8'), listing=True)
         else:
             try:
-                body = _join_body(res.body)
+                if isinstance(res.body, (list, bytes, str)):
+                    body = _join_body(res.body)
+                else:
+                    # a generator / file iterator: keep what each step yields (as it is written: str -> UTF-8)
+                    chunks = [x if isinstance(x, bytes) else x.encode('utf-8') for x in res.body if x is not None]
+                    obs['chunks'] = chunks
+                    body = b''.join(chunks)
             except Exception as e:  # noqa: BLE001
                 obs.update(kind='exception', exc=type(e).__name__, detail=str(e)[:200])
                 return obs
@@ -265,14 +278,16 @@ class HttpRig:
         self.reqpaths = []
         drain(self.m)
 
-    def get(self, target, rng=None, version='1.1'):
+    def get(self, target, rng=None, version='1.1', extra=(), method='GET'):
         from circuits.net.events import disconnect, read
         self.out = []
         self.reqpaths = []
         s = _Sock()
-        head = 'GET %s HTTP/%s\r\nHost: localhost\r\n' % (target, version)
+        head = '%s %s HTTP/%s\r\nHost: localhost\r\n' % (method, target, version)
         if rng is not None:
             head += 'Range: %s\r\n' % rng
+        for k, v in extra:
+            head += '%s: %s\r\n' % (k, v)
         data = (head + '\r\n').encode('utf-8')
         obs = {}
         audit_start()
@@ -616,7 +631,8 @@ def resp_tokens(obs, filedata):
                 return None, [('range-bad-multipart', 'no boundary')]
             bnd = m.group(1).encode()
             chunks = body.split(b'--' + bnd)
-            if len(chunks) < 3 or chunks[0] != b'\r\n' or not chunks[-1].startswith(b'--'):
+            # (a body may start with the dash-boundary itself or with CRLF dash-boundary: RFC 2046 5.1.1)
+            if len(chunks) < 3 or chunks[0] not in (b'', b'\r\n') or not chunks[-1].startswith(b'--'):
                 return None, [('range-bad-multipart', 'framing of the multipart body')]
             parts = []
             for ch in chunks[1:-1]:
@@ -697,12 +713,13 @@ def eval_ranges(ctx, world, cases):
     """cases: dict(kind='range', mode='direct'|'http', size=n, proto='11'|'10', range=str|None)"""
     by = {}
     for c in cases:
-        by.setdefault((c['size'], c['mode']), []).append(c)
+        by.setdefault((c['size'], c['mode'], c.get('ext', 'bin')), []).append(c)
     import sys as _s
     md = _s.get_int_max_str_digits() if hasattr(_s, 'get_int_max_str_digits') else 0
-    for (size, mode), group in by.items():
+    for (size, mode, ext), group in by.items():
         filedata = pattern(size)
-        path = '/f%d.bin' % size
+        path = ('/f%d.bin' if ext == 'bin' else '/m%d.txt') % size
+        ctype = file_ctype(path)
         static = world.static(0)
         rig = HttpRig(*world.cfgs[0]) if mode == 'http' else None
         lines = ['maxdigits %d' % md, 'file %s' % hx(filedata)]
@@ -716,13 +733,14 @@ def eval_ranges(ctx, world, cases):
             if obs['kind'] == 'pass':
                 obs = {'kind': 'exception', 'exc': 'NotServed', 'detail': 'dispatcher passed on an existing file'}
             tok, problems = resp_tokens(obs, filedata)
-            rec = {'case': c, 'tok': tok, 'problems': problems, 'ops': {}}
+            rec = {'case': c, 'tok': tok, 'problems': problems, 'ops': {}, 'obs': obs}
             hv = '~' if rng is None else sx(rng)
             rec['ops']['serve'] = len(lines)
             lines.append('serve %s %s' % (c['proto'], hv))
             if tok is not None:
                 rec['ops']['spec'] = len(lines)
                 lines.append('spec %s %s | %s' % (c['proto'], hv, tok))
+            mp_lines(rec, lines, c, hv, ctype, size)
             recs.append(rec)
         answers = ctx.driver.run('ranges', ['reset'] + lines)[1:]
         for rec in recs:
@@ -742,10 +760,180 @@ def eval_ranges(ctx, world, cases):
                 if not ok:
                     ctx.disagree(c, {'where': 'serve_file.range(%s)' % mode, 'range': c['range'], 'size': size,
                                      'impl': _short(tok), 'model': _short(model)})
+            ok = mp_judge(ctx, rec, answers, c, size, mode, filedata, ctype) and ok
             ctx.count('range_mode', mode)
             ctx.count('range_size', size)
             ctx.count('range_answer', (tok or 'none').split(' ')[0])
             ctx.case(c, nontrivial=c['range'] is not None, validated=ok)
+
+
+# ---------------------------------------------------------------------------------------
+# multipart/byteranges on the wire: the model's byte stream, the RFC reader on the real bytes
+# ---------------------------------------------------------------------------------------
+
+def file_ctype(path):
+    """the media type `serve_file` derives from the extension (input of the model, as the code derives it)"""
+    from circuits.web import tools
+    return tools.mimetypes.types_map.get(os.path.splitext(path)[-1].lower(), 'text/plain')
+
+
+MP_CT_RE = re.compile(r'^multipart/byteranges; boundary=(\S+)$')
+
+
+def _is_multi(obs):
+    return (obs.get('kind') == 'status' and obs.get('status') == 206
+            and str(obs['headers'].get('Content-Type', '')).startswith('multipart/byteranges'))
+
+
+def mp_lines(rec, lines, c, hv, ctype, size):
+    """driver lines for a request with several range specs: what the model puts on the wire, and the spec
+    reader (RFC 2046 / 7233) on what the implementation put there"""
+    obs = rec['obs']
+    rng = c['range']
+    if rng is not None and ',' in rng:
+        rec['ops']['getranges'] = len(lines)
+        lines.append('getranges %s %d' % (hv, size))
+    if not _is_multi(obs):
+        if rng is not None and ',' in rng:
+            # the model must not answer multipart either (any boundary will do)
+            rec['ops']['mpserve'] = len(lines)
+            lines.append('mpserve %s %s %s %s' % (c['proto'], hv, hx(ctype.encode('utf-8')), hx(b'x')))
+        return
+    cth = str(obs['headers'].get('Content-Type'))
+    m = MP_CT_RE.match(cth)
+    rec['mp_ct'] = cth
+    rec['ops']['mpspec'] = len(lines)
+    lines.append('mpspec %s %s %s %s' % (c['proto'], hv, hx(cth.encode('latin-1')), hx(obs['body'])))
+    if m:
+        bnd = m.group(1).encode('latin-1')
+        rec['mp_bnd'] = bnd
+        rec['ops']['mpserve'] = len(lines)
+        lines.append('mpserve %s %s %s %s' % (c['proto'], hv, hx(ctype.encode('utf-8')), hx(bnd)))
+        rec['ops']['mpread'] = len(lines)
+        lines.append('mpread %s %s' % (hx(bnd), hx(obs['body'])))
+
+
+def range_shape(hv, ans):
+    """histogram key for the list `get_ranges` makes of a header (the model's reading of it)"""
+    if not ans.startswith('ranges'):
+        return ans.split(' ')[0]
+    rs = [tuple(int(x) for x in t.split(':')) for t in ans.split(' ')[1:] if t]
+    if len(rs) < 2:
+        return 'ranges:%d' % len(rs)
+    tags = []
+    if any(a < d and c < b for i, (a, b) in enumerate(rs) for (c, d) in rs[i + 1:]):
+        tags.append('overlap')
+    if any(rs[i + 1][0] < rs[i][0] for i in range(len(rs) - 1)):
+        tags.append('out-of-order')
+    if any(b == c for (a, b) in rs for (c, d) in rs):
+        tags.append('adjacent')
+    return 'ranges:%d%s' % (min(len(rs), 5), ''.join('+' + t for t in tags))
+
+
+def spec_shape(rng):
+    specs = [x.strip() for x in rng.split('=', 1)[-1].split(',')]
+    kinds = set()
+    for sp in specs:
+        if re.fullmatch(r'\d+-\d+', sp):
+            kinds.add('a-b')
+        elif re.fullmatch(r'\d+-', sp):
+            kinds.add('a-')
+        elif re.fullmatch(r'-\d+', sp):
+            kinds.add('-n')
+        else:
+            kinds.add('bad')
+    if len(set(specs)) < len(specs):
+        kinds.add('dup')
+    return ','.join(sorted(kinds))
+
+
+def mp_judge(ctx, rec, answers, c, size, mode, filedata, ctype):
+    """multipart part of the verdict on one range case; returns False if a correspondence failed"""
+    ops, obs = rec['ops'], rec['obs']
+    ok = True
+    if 'getranges' in ops:
+        ctx.count('rangelist_shape', range_shape(c['range'], answers[ops['getranges']]))
+        ctx.count('rangelist_specs', spec_shape(c['range']))
+    if 'mpspec' not in ops:
+        if 'mpserve' in ops and answers[ops['mpserve']] != 'notmulti' and rec['tok'] is not None:
+            ok = False
+            ctx.disagree(c, {'where': 'serve_file.multipart(%s)' % mode, 'range': c['range'], 'size': size,
+                             'impl': _short(rec['tok']), 'model': _short(answers[ops['mpserve']])})
+        return ok
+    what = 'Range %r on a %d-byte file (HTTP/%s)' % (c['range'], size, '.'.join(c['proto']))
+    body = obs['body']
+    # (C) the spec, evaluated by the driver on the bytes on the wire
+    sp = answers[ops['mpspec']]
+    if sp == 'fail no-boundary' or 'mp_bnd' not in rec:
+        ctx.violate(c, 'multipart-no-boundary', '%s: 206 multipart without a usable boundary: Content-Type %r' % (what, rec.get('mp_ct')))
+        return False
+    bnd = rec['mp_bnd']
+    payload_clash = (b'--' + bnd) in filedata    # hypothesis of C16.multipart_roundtrip (the code does not check it)
+    ctx.count('multipart_boundary_in_file', payload_clash)
+    if sp == 'fail unreadable':
+        if not payload_clash:
+            ctx.violate(c, 'multipart-unreadable', '%s: the multipart body cannot be read with its boundary (RFC 2046): %r'
+                        % (what, body[:120]))
+        return False
+    rd = answers[ops['mpread']]
+    if sp == 'fail range-exact':
+        if not payload_clash:
+            tok = 'multi ' + ' ; '.join(' '.join(p.split(' ')[1:]) for p in rd[len('parts '):].split(' ; '))
+            ctx.violate(c, classify_range(tok, filedata), '%s: read off the wire: %s' % (what, _short(tok)))
+        return False
+    if sp != 'ok':
+        ctx.disagree(c, {'where': 'ranges.mpspec', 'impl': body[:80].hex(), 'model': sp})
+        return False
+    # the harness's own reading of the body (oracle) against the Lean reader
+    if rec['tok'] is not None and rd.startswith('parts '):
+        mine = rec['tok'][len('multi '):].split(' ; ')
+        theirs = [' '.join(p.split(' ')[1:]) for p in rd[len('parts '):].split(' ; ')]
+        if mine != theirs:
+            ok = False
+            ctx.disagree(c, {'where': 'multipart.reader', 'impl': _short(rec['tok']), 'model': _short(rd)})
+        cts = {p.split(' ')[0] for p in rd[len('parts '):].split(' ; ')}
+        if cts != {hx(ctype.encode('utf-8'))}:
+            ok = False
+            ctx.disagree(c, {'where': 'multipart.part-content-type', 'impl': sorted(cts), 'model': ctype})
+    # (B) the model's response, byte for byte
+    mv = answers[ops['mpserve']]
+    if not mv.startswith('multi '):
+        ctx.disagree(c, {'where': 'serve_file.multipart(%s)' % mode, 'range': c['range'], 'size': size,
+                         'impl': 'multipart, %d bytes' % len(body), 'model': mv})
+        return False
+    head, chunks = mv.split(' | ', 1)
+    _m, m_status, m_ct, m_clen, m_crange, m_ar = head.split(' ')
+    m_chunks = [b'' if x == '-' else bytes.fromhex(x) for x in chunks.split(' ')[1:]]
+    m_body = b''.join(m_chunks)
+    hd = obs['headers']
+    diffs = []
+    if m_body != body:
+        i = next((k for k in range(min(len(body), len(m_body))) if body[k] != m_body[k]), min(len(body), len(m_body)))
+        diffs.append(('body', 'differs at offset %d: impl %r model %r' % (i, body[max(0, i - 8):i + 24], m_body[max(0, i - 8):i + 24])))
+    if 'chunks' in obs and obs['chunks'] != m_chunks:
+        diffs.append(('chunks', 'impl yields %d pieces, model %d' % (len(obs['chunks']), len(m_chunks))))
+    if int(m_status) != obs['status']:
+        diffs.append(('status', '%s / %s' % (obs['status'], m_status)))
+    if bytes.fromhex(m_ct).decode('latin-1') != str(hd.get('Content-Type')):
+        diffs.append(('Content-Type', '%r / %r' % (hd.get('Content-Type'), bytes.fromhex(m_ct))))
+    impl_clen = hd.get('Content-Length')
+    if (m_clen == '~') != (impl_clen is None) or (impl_clen is not None and str(impl_clen) != m_clen):
+        diffs.append(('Content-Length', '%r / %s' % (impl_clen, m_clen)))
+    if (m_crange == '~') != (hd.get('Content-Range') is None):
+        diffs.append(('Content-Range', '%r / %s' % (hd.get('Content-Range'), m_crange)))
+    if bytes.fromhex(m_ar).decode('latin-1') != str(hd.get('Accept-Ranges')):
+        diffs.append(('Accept-Ranges', '%r / %r' % (hd.get('Accept-Ranges'), bytes.fromhex(m_ar))))
+    if mode == 'http' and impl_clen is None and c['proto'] == '11' and str(hd.get('Transfer-Encoding', '')).lower() != 'chunked':
+        diffs.append(('delimiting', 'neither Content-Length nor chunked on HTTP/1.1'))
+    for k, d in diffs:
+        ok = False
+        ctx.disagree(c, {'where': 'serve_file.multipart(%s).%s' % (mode, k), 'range': c['range'], 'size': size, 'diff': d})
+    ctx.count('multipart_boundary_shape', '15"=" 19 digits "=="' if re.fullmatch(rb'={15}[0-9]{19}==', bnd) else
+              ('"=" and digits' if re.fullmatch(rb'[=0-9]+', bnd) else 'other'))
+    ctx.count('multipart_parts', min(len(m_chunks) // 5, 6))
+    ctx.count('multipart_body_bytes', 1 << max(len(body) - 1, 0).bit_length())
+    ctx.count('multipart_mode', '%s %s' % (mode, ctype))
+    return ok
 
 
 def _short(tok):
@@ -831,6 +1019,155 @@ def range_cases(ctx):
             cases.append(mk(size, r, mode='http'))
         cases.append(mk(size, 'bytes=0-0', mode='http', proto='10'))
     return cases
+
+
+def mp_cases(ctx):
+    """directed family for multipart answers: overlapping, reversed, adjacent, duplicate, suffix + open ranges,
+    ranges touching EOF, on tiny files and files whose size is at a change of the decimal width.
+    The lengths are kept near each other: `get_ranges` refuses lists whose lengths spread (stddev > 2)."""
+    rng = ctx.rng
+    cases = []
+
+    def mk(size, ext, r, mode='direct', proto='11'):
+        return {'kind': 'range', 'mode': mode, 'size': size, 'proto': proto, 'range': r, 'ext': ext}
+
+    files = [(n, 'txt') for n in MP_SIZES] + [(n, 'bin') for n in (7, 100, 4096, 10000)]
+    for size, ext in files:
+        n = size
+        fam = []
+        for ln in sorted({1, 2, 3, min(5, max(n, 1)), max(n // 2, 1), max(n - 1, 1), max(n, 1)}):
+            a = max(n - ln, 0) // 2
+            last = max(n - 1, 0)
+            fam += [
+                '%d-%d,%d-%d' % (a, a + ln - 1, a + ln // 2, a + ln // 2 + ln - 1),          # overlapping
+                '%d-%d,%d-%d' % (a + ln, a + 2 * ln - 1, a, a + ln - 1),                    # out of order, adjacent
+                '%d-%d,%d-%d' % (a, a + ln - 1, a + ln, a + 2 * ln - 1),                    # adjacent
+                '%d-%d,%d-%d,%d-%d' % (a, a + ln - 1, a, a + ln - 1, a + 1, a + ln),        # duplicate + shifted by one
+                '-%d,%d-' % (ln, max(n - ln, 0)),                                           # suffix + open, the same bytes
+                '-%d,%d-' % (ln, max(n - ln - 1, 0)),                                       # suffix + open
+                '%d-,-%d,0-%d' % (max(n - ln, 0), ln + 1, ln - 1),                          # open, suffix, head
+                '%d-%d,0-%d' % (max(last - ln + 1, 0), last, ln - 1),                       # touching EOF exactly + head
+                '%d-%d,0-%d' % (max(last - ln + 1, 0), n, ln),                              # one past EOF (clamped)
+                '%d-%d,0-%d' % (max(last - ln + 1, 0), n + 5, ln - 1),                      # beyond EOF (clamped)
+                '%d-%d,%d-%d,0-%d' % (last, last, n, n, 0),                                 # last byte, first beyond, first byte
+                '0-%d,%d-%d,%d-' % (ln - 1, 10 ** 6, 10 ** 6 + ln, max(n - ln, 0)),         # one unsatisfiable among them
+            ]
+        for r in fam:
+            cases.append(mk(size, ext, 'bytes=' + r))
+        # random lists of 2..6 near-equal lengths anywhere in the file (overlaps and any order happen by themselves)
+        for _ in range(6 * ctx.scale):
+            k = rng.randint(2, 6)
+            ln = rng.randint(1, max(1, min(n, rng.choice([1, 2, 8, 64, 1000]))))
+            specs = []
+            for _i in range(k):
+                a = rng.randrange(max(n, 1))
+                form = rng.random()
+                if form < 0.7:
+                    specs.append('%d-%d' % (a, a + ln - 1 + rng.choice([0, 0, 0, 1, 2])))
+                elif form < 0.85:
+                    specs.append('-%d' % (ln + rng.choice([0, 1])))
+                else:
+                    specs.append('%d-' % max(n - ln - rng.choice([0, 1]), 0))
+            cases.append(mk(size, ext, 'bytes=' + rng.choice([',', ', ', ' , ']).join(specs)))
+    # behind the HTTP front end (chunked on 1.1; HTTP/1.0 gets the whole file)
+    for size, ext in [(2, 'txt'), (10, 'txt'), (101, 'txt'), (1000, 'txt'), (7, 'bin'), (4096, 'bin')]:
+        n = size
+        for r in ['0-0,1-1', '1-1,0-0', '0-1,1-2', '-1,0-0', '0-,-%d' % n, '0-2,2-4,4-6', '%d-%d,0-0' % (n - 1, n + 9),
+                  '0-0,0-0,1-1', '0-3,2-5,1-4']:
+            cases.append(mk(size, ext, 'bytes=' + r, mode='http'))
+        cases.append(mk(size, ext, 'bytes=0-0,1-1', mode='http', proto='10'))
+        cases.append(mk(size, ext, 'bytes=0-0,1-1', proto='10'))
+    return cases
+
+
+# ---------------------------------------------------------------------------------------
+# conditional requests: validate_since decides before the Range header is looked at
+# ---------------------------------------------------------------------------------------
+
+def cond_cases(ctx):
+    rng = ctx.rng
+    cases = []
+    dates = [None, '', 'LM', 'Thu, 01 Jan 1970 00:00:00 GMT', 'Fri, 31 Dec 2100 23:59:59 GMT', 'lm', 'garbage', 'LM ']
+    ranges = [None, 'bytes=0-0', 'bytes=0-0,2-2', 'bytes=5-', 'bytes=999999-', 'bytes=a-b', 'bytes=0-1,1-2,2-3']
+    ifr = [None, 'LM', '"etag"', 'Thu, 01 Jan 1970 00:00:00 GMT']
+    combos = list(itertools.product(dates, dates, ranges))
+    for ius, ims, r in combos:
+        cases.append({'kind': 'cond', 'mode': 'direct', 'size': 7, 'method': 'GET', 'proto': '11',
+                      'ius': ius, 'ims': ims, 'ifrange': None, 'range': r})
+    for _ in range(150 * ctx.scale):
+        ius, ims, r = rng.choice(combos)
+        cases.append({'kind': 'cond', 'mode': 'direct', 'size': rng.choice([0, 1, 7, 100]),
+                      'method': rng.choice(['GET', 'HEAD', 'POST', 'PUT']), 'proto': rng.choice(['11', '11', '10']),
+                      'ius': ius, 'ims': ims, 'ifrange': rng.choice(ifr), 'range': r})
+    for _ in range(60 * ctx.scale):
+        ius, ims, r = rng.choice(combos)
+        ius = None if ius == '' or (ius or '').endswith(' ') else ius     # empty / padded values do not survive a request parser unchanged
+        ims = None if ims == '' or (ims or '').endswith(' ') else ims
+        cases.append({'kind': 'cond', 'mode': 'http', 'size': rng.choice([1, 7, 100]), 'method': 'GET',
+                      'proto': rng.choice(['11', '11', '10']), 'ius': ius, 'ims': ims,
+                      'ifrange': rng.choice(ifr), 'range': r})
+    return cases
+
+
+def eval_cond(ctx, world, cases):
+    """cases: dict(kind='cond', mode, size, method, proto, ius, ims, ifrange, range); 'LM' stands for the file's
+    Last-Modified value"""
+    from email.utils import formatdate
+    import sys as _s
+    md = _s.get_int_max_str_digits() if hasattr(_s, 'get_int_max_str_digits') else 0
+    by = {}
+    for c in cases:
+        by.setdefault((c['size'], c['mode']), []).append(c)
+    for (size, mode), group in by.items():
+        filedata = pattern(size)
+        path = '/f%d.bin' % size
+        real = os.path.join(world.base, 'root', 'f%d.bin' % size)
+        lm = formatdate(os.stat(real).st_mtime, usegmt=True)
+        static = world.static(0)
+        rig = HttpRig(*world.cfgs[0]) if mode == 'http' else None
+        lines = ['maxdigits %d' % md, 'file %s' % hx(filedata)]
+        recs = []
+        for c in group:
+            def val(v):
+                return None if v is None else v.replace('LM', lm)
+            ius, ims, ifr = val(c['ius']), val(c['ims']), val(c['ifrange'])
+            extra = [(k, v) for k, v in (('If-Unmodified-Since', ius), ('If-Modified-Since', ims), ('If-Range', ifr)) if v is not None]
+            if mode == 'direct':
+                obs = impl_direct(static, path, c['range'], (1, 1) if c['proto'] == '11' else (1, 0), extra, c['method'])
+            else:
+                obs = rig.get(path, c['range'], '1.1' if c['proto'] == '11' else '1.0', extra, c['method'])
+            rec = {'case': c, 'obs': obs, 'problems': []}
+            if obs['kind'] == 'pass':
+                obs = rec['obs'] = {'kind': 'exception', 'exc': 'NotServed', 'detail': 'dispatcher passed on an existing file'}
+            if obs['kind'] == 'status' and obs['status'] in (304, 412):
+                rec['tok'] = 's%d' % obs['status']
+                if obs['status'] == 304 and obs.get('body'):
+                    rec['problems'].append(('cond-304-with-body', '304 with a body of %d bytes' % len(obs['body'])))
+            else:
+                tok, problems = resp_tokens(obs, filedata)
+                rec['tok'] = None if tok is None else 'ranged ' + tok
+                rec['problems'] += problems
+            goh = '11' if c['method'] in ('GET', 'HEAD') else '10'
+            rec['op'] = len(lines)
+            lines.append('cond %s %s %s %s %s %s' % (c['proto'], goh, sx(lm), '~' if ius is None else sx(ius),
+                                                     '~' if ims is None else sx(ims), '~' if c['range'] is None else sx(c['range'])))
+            recs.append(rec)
+        answers = ctx.driver.run('ranges', ['reset'] + lines)[1:]
+        for rec in recs:
+            c, tok = rec['case'], rec['tok']
+            for sig, what in rec['problems']:
+                ctx.violate(c, sig, '%s %s, If-Unmodified-Since %r, If-Modified-Since %r, Range %r: %s'
+                            % (c['method'], c['proto'], c['ius'], c['ims'], c['range'], what))
+            model = answers[rec['op']]
+            ok = tok is not None and model.strip() == tok.strip()
+            if tok is not None and not ok:
+                ctx.disagree(c, {'where': 'serve_file.conditional(%s)' % mode, 'impl': _short(tok), 'model': _short(model)})
+            ctx.count('cond_answer', model.split(' ')[0] + ('' if not model.startswith('ranged') else ':' + model.split(' ')[1]))
+            ctx.count('cond_method', c['method'])
+            ctx.count('cond_headers', '%s/%s/%s' % ('ius' if c['ius'] is not None else '-', 'ims' if c['ims'] is not None else '-',
+                                                    'range' if c['range'] is not None else '-'))
+            ctx.count('cond_if_range', c['ifrange'] is not None)
+            ctx.case(c, nontrivial=c['ius'] is not None or c['ims'] is not None, validated=ok)
 
 
 def mode_ok(r, http=False):
@@ -954,13 +1291,24 @@ def params(ctx):
     ctx.param('Static.defaults are clean path components (hypothesis of C16.contained)', ok, repr(dflt))
     md = sys.get_int_max_str_digits() if hasattr(sys, 'get_int_max_str_digits') else 0
     ctx.extra['int_max_str_digits'] = md
+    # hypotheses of C16.multipart_roundtrip that concern the code's own inputs
+    from circuits.web import tools
+    bs = [tools._make_boundary() for _ in range(64)]
+    ok = all(isinstance(b, str) and re.fullmatch(r'[=0-9]+', b) for b in bs)
+    if ok:
+        ans = ctx.driver.run('ranges', ['bndok %s' % hx(b.encode('latin-1')) for b in bs[:8]])
+        ok = all(a == 'yes' for a in ans)
+    ctx.param('multipart boundaries consist of "=" and decimal digits (hypothesis of C16.code_boundary_no_cr / hb)', ok, bs[0])
+    cts = sorted({file_ctype('/x.bin'), file_ctype('/x.txt')})
+    ctx.param('media types of the served files contain no CR (hypothesis hct of C16.multipart_roundtrip)',
+              all('\r' not in t for t in cts), repr(cts))
 
 
 # ---------------------------------------------------------------------------------------
 # entry points
 # ---------------------------------------------------------------------------------------
 
-EVAL = {'path': eval_paths, 'range': eval_ranges, 'leaf': eval_leaves}
+EVAL = {'path': eval_paths, 'range': eval_ranges, 'leaf': eval_leaves, 'cond': eval_cond}
 
 
 def _describe(ctx):
@@ -970,16 +1318,29 @@ def _describe(ctx):
                 'hostile and benign segments with right / wrong / sloppy mount prefixes; ranges: every single spec over the '
                 'boundary numbers {0,1,n-1,n,n+1,10^6} x {a-b, a-, -n} + malformed specs and units for file sizes %r, all '
                 'pairs on the 7-byte file (sampled in quick), random 2-4 spec lists, HTTP/1.0, behind the front end; '
+                'multipart: every 206 multipart answer of those runs plus a directed family (overlapping, out-of-order, '
+                'adjacent, duplicate, suffix+open, touching / beyond EOF, one unsatisfiable) on files of %r bytes (text/plain) '
+                'and 7/100/4096/10000 bytes (octet-stream) is compared byte for byte (and piece for piece in direct mode) '
+                'with the model body for the real boundary, its headers by content, and read by the Lean RFC reader; '
+                'conditional: all combinations of 8 If-Unmodified-Since x 8 If-Modified-Since values x 7 Range headers '
+                '(GET), random ones with HEAD/POST/PUT, If-Range, HTTP/1.0, behind the front end; '
                 'non-trivial = hostile segment or something served / a Range header present; distinct = distinct case'
-                % (CORE9, len(WIDE), SIZES))
+                % (CORE9, len(WIDE), SIZES, MP_SIZES))
     ctx.trusted += ['Lean re-implementations of urllib.parse.unquote / posixpath.normpath / join / str.strip equal the '
                     'stdlib functions (validated by this run on generated strings, not proved)',
                     'no symbolic links inside the document root (the dispatcher resolves none)',
                     'file contents and sizes do not change between stat and read',
-                    'float stddev(...) > 2.0 agrees with the exact integer comparison used by the model']
+                    'float stddev(...) > 2.0 agrees with the exact integer comparison used by the model',
+                    'the multipart boundary ("--" + boundary) does not occur in a requested payload: hypothesis of '
+                    'C16.multipart_roundtrip; the code draws 19 random digits and does not look at the file '
+                    '(histogram multipart_boundary_in_file counts the runs where it did occur)',
+                    'HTTP chunked framing of the generator body is undone by the harness (C15 covers it)']
     ctx.assumptions += ['Range header values are drawn from ASCII plus a few non-ASCII digits / spaces',
                         'directory listings are compared as sets of entry names',
-                        'HTTP/1.0 requests get the whole file (the code does not look at Range there)']
+                        'HTTP/1.0 requests get the whole file (the code does not look at Range there)',
+                        'the media type of a part is the one mimetypes gives for the extension (input of the model)',
+                        'validators are compared as strings with the formatted Last-Modified (as the code does); '
+                        'If-Range / ETag headers are sent but the code ignores them - so does the model']
 
 
 def run(ctx):
@@ -989,7 +1350,8 @@ def run(ctx):
         params(ctx)
         for case in ctx.corpus():
             EVAL[case['kind']](ctx, world, [case])
-        groups = [('leaf', leaf_cases(ctx)), ('range', range_cases(ctx)), ('path', path_cases(ctx, world))]
+        groups = [('leaf', leaf_cases(ctx)), ('range', range_cases(ctx) + mp_cases(ctx)), ('cond', cond_cases(ctx)),
+                  ('path', path_cases(ctx, world))]
         for kind, cases in groups:
             for i in range(0, len(cases), 4000):
                 EVAL[kind](ctx, world, cases[i:i + 4000])
